@@ -9,7 +9,7 @@ COMMON_ASSUME = [
     'ASSUME-RANGE: sessions are shorter than 2^28 frames (machine arithmetic is checked, not idealised: every +1 / cast carries an overflow obligation)',
     'ASSUME-RING: an input queue never comes within 66 slots of filling its 128-slot ring (how far a remote can run ahead is a cross-peer fact)',
     'ASSUME-EQ: Config::Input::eq is the deterministic function eq_spec (true for #[derive(PartialEq)])',
-    'INV-EXT: the session invariant sess_inv is PROVED preserved by the functions under contract and ASSUMED preserved by the functions listed as external_body (register_local_inputs, update_player_disconnects, poll_remote_clients, ...)',
+    'INV-EXT: the session invariant sess_inv is PROVED preserved by the functions under contract (advance_frame_after_poll and everything it calls incl. register_local_inputs, handle_event, add_local_input, set_input_delay) and ASSUMED preserved by the functions listed as external_body (update_player_disconnects, poll_remote_clients, ...)',
     'ASSUME-GOSSIP: a cut-off frame adopted from another peer is newer than the last confirmed frame (see DESIGN.md section 6, observation O1)',
     'extraction: tools/gen.py copies function text from /repo/src; drops D-1..D-3, normalisations N-1..N-6 and insertions I-1..I-5 are listed per run in coverage.extraction_edits',
 ]
@@ -34,28 +34,28 @@ prop('C02', verus_units=['sl', 'p2p', 'spc', 'st'],
 prop('C03', verus_units=['iq', 'sl', 'p2p'],
      technique='Verus contracts: InputQueue::input / synchronized_inputs postconditions (sync_rel), confirmed_frame as a spec fold',
      level_text='Deductive proof: Confirmed <=> the queue held the frame and the value is the stored one; Predicted values are the sticky prediction, which on entering prediction is the configured predictor applied to the newest stored input (default before any input / for frame 0), with both shipped predictors under contract; Disconnected <=> flagged disconnected with last_frame below the frame, value is a default(); stored inputs are never rewritten or discarded while still needed; confirmed_frame() is the minimum over connected players and handle_event raises last_frame by exactly one step.',
-     level_note='"default input" is a relation (call_ensures of Default::default), not a value: Verus gives trait functions no functional spec. Local-players-always-Confirmed and monotonicity across register_local_inputs rest on an assumed contract.',
-     claims=['C03.confirmed', 'C03.predicted', 'C03.disc', 'C03.final', 'C03.mono'], residue=['local players always Confirmed (register_local_inputs assumed)', 'lockstep statuses'])
+     level_note='"default input" is a relation (call_ensures of Default::default), not a value: Verus gives trait functions no functional spec. Local players: register_local_inputs is proved to feed every local queue up to the current frame and local queues are proved never to enter prediction (player_ok), so their inputs are handed out Confirmed.',
+     claims=['C03.confirmed', 'C03.predicted', 'C03.disc', 'C03.final', 'C03.mono', 'C03.local'], residue=['lockstep statuses'])
 prop('C04', verus_units=['sl', 'p2p'],
      technique='Verus: prediction gate as postcondition of advance_rollback_frame + window clause of the session invariant',
      level_text='Deductive proof that advance_rollback_frame simulates a new frame iff current - last_confirmed < max_prediction (after raising last_confirmed to min(confirmed_frame(), current)), that the session invariant current - last_confirmed <= max_prediction is preserved, and that every load_frame call meets the window assertion (a discharged obligation of each caller). Lockstep: advance_frame_after_poll itself adds no save in lockstep mode.',
      level_note='Everything inside advance_lockstep_frame (only Confirmed/Disconnected statuses, stall leaves current_frame unchanged) is an ASSUMED contract: its closure with a tuple pattern is rejected by Verus and a session cannot be built under Kani.',
      claims=['C04.gate', 'C04.window', 'C04.ls_save'], residue=['advance_lockstep_frame'])
-prop('C06', verus_units=['spc', 'sl'],
+prop('C06', verus_units=['spc', 'sl', 'st'],
      technique='Verus: 60-slot ring invariant of SpectatorSession + pacing/cursor postconditions',
      level_text='Deductive proof for the spectator side: advance_frame emits only AdvanceFrame requests, for consecutive frames from the old cursor, 1 per call or min(catchup_speed, frames behind, 59) when more than max_frames_behind are buffered; on any error nothing is delivered and the cursor has not moved (no frame is skipped), given the ring invariant, which handle_event is proved to preserve; confirmed_inputs on the host returns the stored input / a default for disconnected players.',
-     level_note='The VALUES equal the host\'s only through assumed contracts: inputs_at_frame (closure with tuple pattern) and the host side send_confirmed_inputs_to_spectators (HashMap iteration) are not under contract; that a frame\'s inputs arrive whole, player 0 first, is a precondition of handle_event (residue: on_input).',
-     claims=['C06.pace', 'C06.cursor', 'C06.values(host lookup only)'], residue=['inputs_at_frame', 'send_confirmed_inputs_to_spectators', 'spectators do not change the players\' simulation'])
+     level_note='inputs_at_frame is under contract (normalisation N-7 of its iter().enumerate().map().collect()): it returns the buffered inputs of exactly that frame, Disconnected exactly for players the host reports disconnected earlier, PredictionThreshold / SpectatorTooFarBehind otherwise. The host side send_confirmed_inputs_to_spectators (HashMap iteration) is not under contract; that a frame\'s inputs arrive whole, player 0 first, is a precondition of handle_event (residue: on_input).',
+     claims=['C06.pace', 'C06.cursor', 'C06.values'], residue=['send_confirmed_inputs_to_spectators', 'spectators do not change the players\' simulation'])
 prop('C07', verus_units=['sl', 'p2p'],
      technique='Verus: rollback-to-minimum postcondition + sync_rel for disconnected players + disconnect_player guards',
      level_text='Deductive proof of the second half of the property: given the disconnected flag and disconnect_frame, handle_rollback_and_save rolls back to min(disconnect_frame, mispredictions), re-simulates to the current frame and clears disconnect_frame; in that re-simulation and after, the player gets (default, Disconnected) exactly for frames above its last_frame and its stored input below; disconnect_player rejects unknown/local/already-disconnected handles without changing anything and otherwise cuts at the last received frame.',
      level_note='disconnect_player_at_frame (HashMap::get_mut, `for &handle in`) is an ASSUMED contract, so a change inside it is NOT detected; event timing (NetworkInterrupted / Disconnected after the timeouts, once) lives in UdpProtocol::poll behind Instant::now: not decided.',
      claims=['C07.resim', 'C07.default', 'C07.api'], residue=['disconnect_player_at_frame', 'timing of events', 'spectators'])
-prop('C08', verus_units=['cdc'], native={'quick': ['cdc_exhaust'], 'thorough': ['cdc_exhaust']},
+prop('C08', verus_units=['cdc', 'pro'], native={'quick': ['cdc_exhaust'], 'thorough': ['cdc_exhaust']},
      technique='Verus proof of the stream validator against a functional spec + bounded exhaustive execution of the real codec',
      level_text='Deductive proof (unbounded) that check_rle_stream, which now guards bitfield_rle::decode, is total and returns Ok(n) exactly for well-formed streams with n <= MAX_DECODED_LEN; BOUNDED stand-in (not a proof): exhaustive execution of the real decode/delta_decode on every byte string of length <= 3 with panics, overflow checks and allocation size observed.',
-     level_note='Only the codec/shape part of the property. NOT decided: that a dropped packet changes neither delivered inputs nor connection state, the address/magic filter, injection at every protocol state (handle_message/on_input: outside both front ends). bincode::deserialize assumed total. The bounded part is labelled bounded in the evidence.',
-     claims=['C08.codec_total'], residue=['handle_message / on_input shape checks', 'magic and address filter'])
+     level_note='Only the codec/shape part of the property. Also proved (unit pro): handle_message drops every packet after shutdown or with a magic other than the one pinned by the handshake without changing anything. NOT decided: the shape checks inside on_input (status count, negative start frame, decoded size) and that a dropped packet changes neither delivered inputs nor connection state (on_input is outside both front ends); the address filter (poll_remote_clients). bincode::deserialize assumed total. The bounded part is labelled bounded in the evidence.',
+     claims=['C08.codec_total', 'C08.magic'], residue=['on_input shape checks', 'address filter'])
 prop('C11', verus_units=['iq', 'sl', 'p2p'],
      technique='Verus contracts on set_frame_delay / add_input (announced == stored, gapless)',
      level_text='Deductive proof at the queue, where the stream is produced: set_frame_delay returns exactly the frames it stores (consecutive from last_added+1, each a copy of the newest input), keeps the no-silent-fill invariant, add_input returns the frame where the input is stored or -1 with the queue unchanged; P2PSession::set_input_delay keeps last_frame == newest stored frame and rejects non-local handles unchanged; all in-code assertions discharged.',
@@ -64,8 +64,8 @@ prop('C11', verus_units=['iq', 'sl', 'p2p'],
 prop('C12', verus_units=['pro', 'p2p', 'spc'],
      technique='Verus contracts on on_sync_reply, advance_frame_after_poll (state gate) and both handle_event (queue cap)',
      level_text='Deductive proof of three clauses: a sync reply counts only while Synchronizing and only for a nonce that was sent and not yet counted, decrements the remaining round trips by one, emits Synchronizing{total 5, count 5-remaining} or exactly one Synchronized with state Running and the peer magic pinned; advance_frame returns NotSynchronized and changes nothing unless Running; after every handle_event (player and spectator sessions) the event queue holds at most 100 entries.',
-     level_note='Interrupted/Resumed alternation, at most one Disconnected, timing and keep-alive live in poll/handle_message (Instant::now): not decided. check_initial_sync is an assumed contract. Observation O3 (DESIGN.md): check_wait_recommendation and compare_local_checksums_against_peers push without trimming, so the bound can be exceeded by those pushes until the next handle_event.',
-     claims=['C12.sync', 'C12.gate', 'C12.cap'], residue=['poll timing', 'alternation of events', 'check_initial_sync'])
+     level_note='Also proved: handle_message raises NetworkResumed exactly when a packet arrives while an interruption is notified and the endpoint runs, and clears the notification; every endpoint event becomes exactly one user event for its address (none for inputs), oldest dropped first. Timing, NetworkInterrupted/Disconnected after the timeouts and keep-alive live in UdpProtocol::poll (Instant arithmetic, Drain return type): not decided. check_initial_sync is an assumed contract. Observation O3 (DESIGN.md): check_wait_recommendation and compare_local_checksums_against_peers push without trimming, so the bound can be exceeded by those pushes until the next handle_event.',
+     claims=['C12.sync', 'C12.gate', 'C12.cap', 'C12.order', 'C12.resume'], residue=['poll timing', 'check_initial_sync'])
 prop('C13', verus_units=['st', 'sl', 'iq'],
      technique='Verus contracts on start_synctest_session, SyncTestSession::new/add_local_input/adjust_gamestate',
      level_text='Deductive proof that start_synctest_session accepts exactly check_distance < max_prediction and !sparse_saving and returns a well-formed session; that the forced rollback (adjust_gamestate) emits an executable, frame-consistent list (Load, then Save-except-first/Advance per frame, back at the same frame) with every queue reset; add_local_input rejects handles outside 0..num_players unchanged.',
@@ -84,8 +84,8 @@ prop('C15', verus_units=['pro', 'p2p'], kani={'quick': ['tsy_average_small', 'ts
 prop('C16', verus_units=['iq', 'sl', 'p2p', 'pro', 'st'],
      technique='Verus: error paths with frame conditions (*final == *old), panic-freedom = every assert!/panic! is a requires-false obligation',
      level_text='Deductive proof of validate_player_handle (Ok iff player handle < num_players / spectator handle >= num_players), start_synctest_session, and the run-time guards with frame conditions: P2PSession::add_local_input / disconnect_player / set_input_delay / network_stats, SyncTestSession::add_local_input, advance_frame_after_poll (every Err leaves the session untouched); every in-code assertion of every function under contract is a discharged obligation.',
-     level_note='Builder setters take `mut self`, which Verus rejects, and a Kani harness through three HashMap::new did not finish in 22 min: add_player/with_num_players/with_fps/... and start_p2p_session are NOT decided (only the handle rule they delegate to).',
-     claims=['C16.handle', 'C13.reject', 'C16.guards'], residue=['builder setters', 'start_p2p_session', 'sessions as a whole never panic'])
+     level_note='Builder setters (add_player, with_fps, with_max_frames_behind, with_catchup_speed, with_input_delay, with_max_prediction_window, with_sparse_saving_mode, with_check_distance) are under contract through normalisation N-8 (`mut self` rebound). NOT decided: with_num_players and start_p2p_session (HashMap iteration), start_spectator_session, advance_lockstep_frame.',
+     claims=['C16.handle', 'C16.builder', 'C13.reject', 'C16.guards'], residue=['with_num_players', 'start_p2p_session', 'sessions as a whole never panic'])
 prop('C18', verus_units=['iq', 'pro', 'p2p', 'spc'],
      technique='Verus: queue-length postconditions and ring invariant',
      level_text='Deductive proof for three buffers: both event queues are <= 100 after every handle_event and check_wait_recommendation appends at most one; pending_output grows by one per send_input, asks for a disconnect beyond 128, and pop_pending_output removes exactly the acknowledged prefix; every input queue keeps length <= 128 (representation invariant) and discarding never grows it.',
